@@ -4,6 +4,7 @@ import (
 	"encoding/json"
 	"flag"
 	"fmt"
+	"go/types"
 	"os"
 	"path/filepath"
 	"sort"
@@ -45,6 +46,12 @@ func specPaths(repo, verif string) []string {
 	}
 	add("yang", "pkg/yang/zz_contracts_verif.go")
 	add("indent", "pkg/indent/zz_contracts_verif.go")
+	// generated no-panic contracts (C01 sweep), see /verif/selftest/gen_c01.py
+	for _, x := range [][2]string{{"yang", "pkg/yang/zz_contracts_c01_verif.go"}, {"indent", "pkg/indent/zz_contracts_c01_verif.go"}} {
+		if _, err := os.Stat(filepath.Join(repo, x[1])); err == nil {
+			out = append(out, x[0]+"="+filepath.Join(repo, x[1]))
+		}
+	}
 	// assumed contracts on dependencies
 	entries, _ := filepath.Glob(filepath.Join(verif, "contracts", "stdlib", "*.spec"))
 	sort.Strings(entries)
@@ -71,6 +78,8 @@ func main() {
 		os.Exit(cmdList())
 	case "replay":
 		os.Exit(cmdReplay())
+	case "sweep":
+		os.Exit(cmdSweep())
 	default:
 		fmt.Fprintln(os.Stderr, "unknown command", cmd)
 		os.Exit(2)
@@ -355,6 +364,30 @@ func cmdCheck() int {
 		}
 	}
 	results := solveAll(obls, outDir, secs, *flagWorkers, all)
+	// Obligations that ran out of time (not refuted) are tried once more with
+	// little competition for the cores and three times the budget: a loaded
+	// machine must not turn a slow proof into an alarm.
+	{
+		var again []int
+		for i, r := range results {
+			if !r.Obl.Probe && r.Obl.MaxSecs == 0 && (r.Status == "timeout" || r.Status == "unknown" || r.Status == "error") {
+				again = append(again, i)
+			}
+		}
+		if len(again) > 0 && len(again) <= 24 {
+			var ro []*Obligation
+			for _, i := range again {
+				ro = append(ro, results[i].Obl)
+			}
+			rr := solveAll(ro, outDir, secs*3, 4, false)
+			for j, i := range again {
+				if rr[j].Status == "proved" {
+					rr[j].Answers["retry"] = "second attempt with a longer time limit"
+					results[i] = rr[j]
+				}
+			}
+		}
+	}
 
 	// classify: an obligation with split cases is discharged iff every case is
 	nObl, nDis, nKnownObl := 0, 0, 0
@@ -720,3 +753,126 @@ func cmdReplay() int {
 }
 
 func sortStrings(s []string) { sort.Strings(s) }
+
+// cmdSweep: zero-annotation run-time-panic sweep. Every function of the
+// packages under verification is executed symbolically with all implicit
+// checks (nil dereference, bounds, nil-map write, failed type assertion,
+// division by zero, explicit panic) as obligations under the function's own
+// `requires` only. Prints, per function, how many discharge; a function whose
+// obligations all discharge is a candidate for a `safe` contract.
+func cmdSweep() int {
+	e, err := loadEngine()
+	if err != nil {
+		fmt.Fprintln(os.Stderr, err)
+		return 2
+	}
+	var keys []string
+	for k, fn := range e.fnByName {
+		if fn.Pkg == nil || !e.target[fn.Pkg.Pkg] || fn.Blocks == nil || fn.Synthetic != "" {
+			continue
+		}
+		if *flagFn != "" && *flagFn != k {
+			continue
+		}
+		keys = append(keys, k)
+	}
+	sort.Strings(keys)
+	outDir := filepath.Join(*flagVerif, "out", "smt", "_sweep")
+	os.RemoveAll(outDir)
+	type row struct {
+		key        string
+		n, ok      int
+		unsup, unk int
+		errs       int
+		failed     []string
+	}
+	var rows []*row
+	rowByKey := map[string]*row{}
+	needRecv := map[string]bool{}
+	for phase := 0; phase < 2; phase++ {
+		var all []*Obligation
+		owner := map[*Obligation]*row{}
+		for _, k := range keys {
+			fn := e.fnByName[k]
+			if phase == 1 {
+				old := rowByKey[k]
+				isPtr := false
+				if fn.Signature.Recv() != nil && len(fn.Params) > 0 {
+					_, isPtr = fn.Params[0].Type().Underlying().(*types.Pointer)
+				}
+				if (old.ok == old.n && old.errs == 0) || !isPtr {
+					continue
+				}
+				needRecv[k] = true
+			}
+			vc := newFuncVC(e, fn)
+			vc.sweep = true
+			vc.sweepRecv = phase == 1
+			vc.outDir = outDir
+			if vc.spec == nil {
+				vc.spec = &FuncSpec{Name: shortName(k), Pkg: fn.Pkg.Pkg.Name(), Loops: map[int]*LoopSpec{}}
+			}
+			vc.generate()
+			vc.finish()
+			r := &row{key: k, unsup: len(vc.unsupported), unk: len(vc.unknownCalls), errs: len(vc.errs)}
+			if phase == 0 {
+				rows = append(rows, r)
+			} else {
+				for i := range rows {
+					if rows[i].key == k {
+						rows[i] = r
+					}
+				}
+			}
+			rowByKey[k] = r
+			for _, o := range vc.obls {
+				if o.Kind == "safety" || o.Kind == "pre" {
+					all = append(all, o)
+					owner[o] = r
+					r.n++
+				}
+			}
+		}
+		results := solveAll(all, outDir, 6, *flagWorkers, false)
+		for _, res := range results {
+			r := owner[res.Obl]
+			if res.Status == "proved" {
+				r.ok++
+			} else {
+				r.failed = append(r.failed, res.Obl.Name[strings.Index(res.Obl.Name, "/")+1:]+"="+res.Status)
+			}
+		}
+	}
+	nsafe := 0
+	for _, r := range rows {
+		st := "SAFE"
+		if r.ok < r.n || r.errs > 0 {
+			st = "open"
+		} else {
+			nsafe++
+		}
+		fn := e.fnByName[r.key]
+		recv := "-"
+		if needRecv[r.key] {
+			recv = fn.Params[0].Name()
+		}
+		inl := "big"
+		if (&Frame{vc: &FuncVC{eng: e}}).canInline(fn, nil) {
+			inl = "inlineable"
+		}
+		has := "nospec"
+		if sp := e.spec.Funcs[r.key]; sp != nil {
+			has = "spec"
+			if sp.Safe {
+				has = "spec-safe"
+			}
+			if strings.Contains(sp.File, "_c01_") {
+				has = "generated"
+			}
+		}
+		fmt.Printf("%-5s %-60s %3d/%-3d recv=%s %s %s unmodelled=%d unknowncalls=%d %s\n", st, r.key, r.ok, r.n, recv, inl, has, r.unsup, r.unk, strings.Join(r.failed, " "))
+	}
+	fmt.Printf("functions: %d, all run-time checks discharged: %d\n", len(rows), nsafe)
+	os.RemoveAll(outDir)
+	return 0
+}
